@@ -5,7 +5,6 @@
 package engine
 
 import (
-	"encoding/json"
 	"fmt"
 	"strconv"
 	"strings"
@@ -20,8 +19,11 @@ type TShape struct {
 	Kind     string    `json:"kind"`              // int | list | object
 	Elem     *TShape   `json:"elem,omitempty"`    // list element type
 	ElemNN   bool      `json:"elem_nn,omitempty"` // list: element type is non-null
-	Fields   []*FShape `json:"fields,omitempty"`  // object: the selected fields, in document order
+	Fields   []*FShape `json:"fields,omitempty"`  // object: the collected response keys, in order
 	TypeName string    `json:"type_name,omitempty"`
+	// Abstract: how the schema declares the type of the position that holds this object:
+	// "" (the object type itself), "iface" (an interface the object type implements) or "union".
+	Abstract string `json:"abstract,omitempty"`
 }
 
 // FShape is one selected field of an object.
@@ -65,7 +67,10 @@ type Case struct {
 	Shape    *TShape  `json:"shape"` // root object
 	World    *WVal    `json:"world"` // root object value
 	Schedule []uint64 `json:"schedule"`
-	Note     string   `json:"note,omitempty"`
+	// Syntax chooses the presentation of the selection sets in the document (see syntax.go):
+	// 0 = one field per response key; otherwise the seed of the un-collected presentation.
+	Syntax uint64 `json:"syntax,omitempty"`
+	Note   string `json:"note,omitempty"`
 }
 
 const AllMask = ^uint64(0)
@@ -197,41 +202,6 @@ func AssignTypeNames(root *TShape) {
 	walk(root)
 }
 
-// Document prints the operation text.
-func (c *Case) Document() string {
-	var b strings.Builder
-	if c.Mutation {
-		b.WriteString("mutation ")
-	}
-	var sel func(t *TShape)
-	sel = func(t *TShape) {
-		for t != nil && t.Kind == "list" {
-			t = t.Elem
-		}
-		if t == nil || t.Kind != "object" {
-			return
-		}
-		b.WriteString("{")
-		for i, f := range t.Fields {
-			if i > 0 {
-				b.WriteString(" ")
-			}
-			if f.Alias != "" {
-				b.WriteString(f.Alias + ":")
-			}
-			if f.Typename {
-				b.WriteString("__typename")
-				continue
-			}
-			b.WriteString(f.Name)
-			sel(f.T)
-		}
-		b.WriteString("}")
-	}
-	sel(c.Shape)
-	return b.String()
-}
-
 // ShapeKey is a canonical text of the shape (schema + document cache key).
 func (c *Case) ShapeKey() string {
 	var b strings.Builder
@@ -263,10 +233,16 @@ func (c *Case) ShapeKey() string {
 				b.WriteString(",")
 			}
 			b.WriteString("}")
+			if t.Abstract != "" {
+				b.WriteString("~" + t.Abstract)
+			}
 		}
 	}
 	if c.Mutation {
 		b.WriteString("M")
+	}
+	if c.Syntax != 0 {
+		b.WriteString(strconv.FormatUint(c.Syntax, 10) + "/")
 	}
 	ty(c.Shape)
 	return b.String()
@@ -323,46 +299,12 @@ func fieldsSexp(t *TShape, w *WVal) []hx.Sexp {
 	return xs
 }
 
-// SettleMode says which serial executor the tree under test has, and therefore which one the
-// model is asked to run for mutations: false — after wait(e, f) the next root field starts at
-// once (finding F-11a: a promise abandoned by a failed selection set may still be outstanding);
-// true — the repaired executor (repo-patches/C11/01-fix-*, settleSerialPromises: after wait the
-// idle handler is driven until every promise returned beneath the current root field has been
-// received). Set once at start-up by DetectSettle; the oracles do not depend on it.
-var SettleMode bool
-
-const settleProbe = `{"mutation":true,"shape":{"kind":"object","fields":[{"name":"a","t":{"kind":"object","fields":[{"name":"x","t":{"kind":"int"}},{"name":"y","t":{"kind":"int"},"nn":true}]}},{"name":"b","t":{"kind":"int"}}]},"world":{"kind":"object","fields":[{"mode":"sync","v":{"kind":"object","fields":[{"mode":"promise","v":{"kind":"int","n":1}},{"mode":"sync","v":{"kind":"null"}}]}},{"mode":"promise","v":{"kind":"int","n":2}}]},"schedule":[]}`
-
-// DetectSettle runs mutation { a { x y } b } (a.x through a promise, a.y: Int! null, b through a
-// promise) on the executor under test and sets SettleMode to whether the abandoned promise of a.x
-// was fulfilled before b's resolver was called.
-func DetectSettle() (bool, error) {
-	var c Case
-	if err := json.Unmarshal([]byte(settleProbe), &c); err != nil {
-		return false, err
-	}
-	o, err := RunReal(&c)
-	if err != nil {
-		return false, err
-	}
-	if o.Panic != "" || o.Stuck {
-		return false, fmt.Errorf("settle probe did not finish: panic=%q stuck=%v", o.Panic, o.Stuck)
-	}
-	fulfilX, startB := -1, -1
-	for i, e := range o.Events {
-		if e.Kind == "fulfil" && e.Path == `["a","x"]` {
-			fulfilX = i
-		}
-		if e.Kind == "start" && e.Path == `["b"]` {
-			startB = i
-		}
-	}
-	if startB < 0 {
-		return false, fmt.Errorf("settle probe: resolver of b never called: %v", o.Events)
-	}
-	SettleMode = fulfilX >= 0 && fulfilX < startB
-	return SettleMode, nil
-}
+// SettleMode says which serial executor the model is asked to run for mutations: true — the
+// executor repaired for F-11a (repo commit eabb795, settleSerialPromises: after wait the idle
+// handler is driven until every promise returned beneath the current root field has been received;
+// model kind `mutation-settle`); false — the one before the repair (model kind `mutation`, kept in
+// the model for the negation witness `strict_serial_fails`). The oracles do not depend on it.
+var SettleMode = true
 
 // ModelLine is the request line for c02model / c11model.
 func (c *Case) ModelLine() string {
